@@ -236,7 +236,7 @@ def gen_newmark(rng, forced=None):
     v0 = None if rng.random() < 0.3 else rng.standard_normal(n) * np.sqrt(np.where(m > 0, k / np.where(m > 0, m, 1), 1.0))
     spec = {"solver": "newmark", "h": h, "form": str(form), "tags": tags, "mnone": bool(mnone)}
     rf = None
-    if not terms_on and n >= 2 and forced.get("rf", rng.random() < 0.3):
+    if (not terms_on or forced.get("rf_terms")) and n >= 2 and forced.get("rf", rng.random() < 0.3):
         cnt = int(rng.integers(1, n + (1 if rng.random() < 0.15 else 0)))
         rf = sorted(int(v) for v in rng.choice(n, size=min(cnt, n), replace=False))
         rf = [i for i in rf if k[i] != 0.0] or None
@@ -253,7 +253,20 @@ def gen_newmark(rng, forced=None):
     else:
         spec.update(m=None if mnone else m.tolist(), b=b.tolist(), k=k.tolist())
     terms = []
-    if terms_on:
+    if terms_on and rf and len(rf) < n:
+        # nonlinear terms WITH an rf partition (the docstring advises against it): transforms and callback indices are in
+        # the numbering of the non-rf rows; index-based callbacks only
+        nn_ = n - len(rf)
+        nonrf_ = [i for i in range(n) if i not in rf]
+        for _ in range(int(rng.integers(1, 3))):
+            kind = int(rng.choice([0, 3]))
+            p = int(rng.integers(0, nn_))
+            kk = float(k[nonrf_[p]] if k[nonrf_[p]] > 0 else m[nonrf_[p]] / h / h)
+            T = rng.standard_normal(nn_) * (rng.random(nn_) < 0.7)
+            if not T.any():
+                T[p] = 1.0
+            terms.append({"kind": kind, "p": p, "q": p, "c": {0: 0.3 * kk, 3: 0.02 * kk / nt}[kind], "g": {0: 0.0, 3: 0.1 * kk}[kind], "T": T.tolist()})
+    elif terms_on and not rf:
         for _ in range(int(rng.integers(1, 3))):
             kind = int(forced.get("kind", rng.integers(0, 5)))
             p = int(rng.integers(0, n))
@@ -516,7 +529,7 @@ def run_newmark(spec):
         lay = spec.get("layout", "C")
         ts = ode.SolveNewmark(_arr(spec["m"], lay), _arr(spec["b"], lay), _arr(spec["k"], lay), spec["h"], rf=spec.get("rf"))
         if spec.get("terms"):
-            ts.def_nonlin({"t%d" % i: (_zfun(t), np.array(t["T"], float).reshape(spec["n"], -1))
+            ts.def_nonlin({"t%d" % i: (_zfun(t), np.array(t["T"], float).reshape(spec["n"] - len(spec.get("rf") or []), -1))
                            for i, t in enumerate(spec["terms"])})
         sol = ts.tsolve(np.array(spec["F"], float), _arr(spec["d0"]), _arr(spec["v0"]))
     except IndexError:
@@ -736,7 +749,11 @@ def _newmark_cases(ctx):
         {"mnone": True, "form": "diag"}, {"rigid": True, "form": "diag", "mnone": False, "massless": False},
         {"quasistatic": True, "form": "diag", "mnone": False, "terms": False, "rigid": False, "nt": 12},
         {"quasistatic": True, "form": "full", "mnone": False, "terms": False, "rigid": False},
-    ] + [{"terms": True, "kind": kk, "form": f} for kk in range(5) for f in ("diag", "full")]
+    ] + [{"terms": True, "kind": kk, "form": f} for kk in range(5) for f in ("diag", "full")] + [
+        # nonlinear terms together with an rf partition: the model hands the callbacks the full-size rows at step 0 and the
+        # non-rf rows afterwards, as the code does
+        {"terms": True, "rf_terms": True, "rf": True, "n": 3, "form": f, "mnone": False, "massless": False, "rigid": False,
+         "quasistatic": False} for f in ("diag", "full", "diag", "full")]
     for p in pins:
         cases.append(gen_newmark(rng, p))
     for _ in range(ctx.pick(2000, 12000)):
@@ -813,7 +830,9 @@ def _corr_newmark(ctx):
             for name, arr, sc in (("d", got[0], sd), ("v", got[1], sd / h), ("a", got[2], sd / h / h)):
                 ok = _cmp(ctx, "newmark-" + ("diag" if _is_diag(spec) else "full") + "-" + name, spec, name,
                           impl[name], arr, sc) and ok
-            if spec.get("terms"):
+            if spec.get("terms") and rf:
+                ctx.count("newmark:nonlin-with-rf")
+            elif spec.get("terms"):
                 zjobs.append((spec, impl, _zout_request(spec, impl["d"])))
             # scalar instance, DOF by DOF
             for r, i in zip(rep[at + 1: at + cnt], nonrf):
@@ -1706,8 +1725,331 @@ def oracle_newmark_seq(ctx, spec):
             return
 
 
+
+# ---------------------------------------------------------------------------------------
+# oracles added with the second extension (all on the public API, never through the Lean model)
+
+
+def _analytic(spec):
+    """scalar test problem with a closed-form solution u = al sin(w t) + be cos(w t) + c0 + c1 t, f = m u'' + b u' + k u"""
+    m, b, k, al, be, c0, c1, w = (spec[x] for x in ("m", "b", "k", "al", "be", "c0", "c1", "w"))
+    u = lambda t: al * np.sin(w * t) + be * np.cos(w * t) + c0 + c1 * t
+    u1 = lambda t: w * (al * np.cos(w * t) - be * np.sin(w * t)) + c1
+    u2 = lambda t: -w * w * (al * np.sin(w * t) + be * np.cos(w * t))
+    f = lambda t: m * u2(t) + b * u1(t) + k * u(t)
+    amp = abs(al) + abs(be)
+    return u, u1, u2, f, w**3 * amp, w**4 * amp, m * w**4 * amp + b * w**3 * amp + k * w * w * amp
+
+
+def oracle_proved_bounds(ctx, spec):
+    """The explicit error bounds of newmark_converges_scalar / newmark_velocity_converges_scalar /
+    newmark_accel_converges_scalar / newmark_initial_accel_error_scalar / newmark_last_step_converges_scalar evaluated in
+    numpy for a problem with a closed-form solution: the REAL code's errors must lie below them (a bound that is not met
+    means the code no longer is the scheme the theorems are about), and v_0 must be the given initial velocity."""
+    from pyyeti import ode
+
+    m, b, k, T = spec["m"], spec["b"], spec["k"], spec["T"]
+    u, u1, u2, f, M3, M4, MF = _analytic(spec)
+    mu, rho = math.sqrt(m), math.sqrt(m + k * T * T / 3)
+    E1 = (b * T / 12 + m / 6) * rho / m**2 + 1 / (3 * mu)
+    E2 = (m * M3 / 2 + b * M3 * T / 4) * rho / m + T * (5 * m * M4 / 12 + b * M3 / 2) / mu
+    delta = abs(f(0.0) - (k * u(0.0) + b * u1(0.0)))
+    for h in spec["hs"]:
+        n = int(math.floor(T / h + 1e-9)) - 2  # nt = n + 2 steps, (n + 2) h <= T
+        if n < 1:
+            continue
+        nt = n + 2
+        t = np.arange(nt) * h
+        sol = ode.SolveNewmark(np.array([m]), np.array([b]), np.array([k]), h).tsolve(f(t)[None, :], np.array([u(0.0)]), np.array([u1(0.0)]))
+        d, v, a = sol.d[0], sol.v[0], sol.a[0]
+        R = E1 * delta * h + E2 * h * h
+        Ct = 5 * m * M4 / 12 + b * M3 / 2
+        Cg = Ct + MF / 3
+        Rp = R + h * (Cg * h * h) / mu
+        slack = 1e-9 * max(np.abs(d).max(), 1e-300)
+        checks = [
+            ("displacement", np.abs(d - u(t)).max(), T / mu * R),
+            ("velocity-interior", np.abs(v[1:-1] - u1(t[1:-1])).max() if nt > 2 else 0.0, R / mu + M3 * h * h / 6),
+            ("velocity-last", abs(v[-1] - u1(t[-1])), (Rp + R) / (2 * mu) + M3 * h * h / 6),
+            ("acceleration-first-interior", abs(a[1] - u2(t[1])), (Ct * h * h + delta / 3 + (b + k * T) * R / mu) / m + M4 * h * h / 12),
+            ("acceleration-interior", np.abs(a[2:-1] - u2(t[2:-1])).max() if nt > 3 else 0.0, (Ct * h * h + (b + k * T) * R / mu) / m + M4 * h * h / 12),
+            ("acceleration-last", abs(a[-1] - u2(t[-1])), (Cg * h * h + b * (Rp + R) / (2 * mu) + k * (T / mu * R + h / mu * Rp)) / m + M4 * h * h / 12),
+            ("acceleration-initial", abs(a[0] - u2(0.0)), abs(u2(0.0)) * (0.5 + abs(b * h / 12 - m / 6) / m) + (2 / 3 * M3 * h + b * M3 * h * h / (4 * m))),
+        ]
+        if v[0] != u1(0.0):
+            ctx.fail("newmark-initial-velocity-not-v0", "v[:, 0] is not the given initial velocity", spec, float(v[0]), float(u1(0.0)))
+            return
+        for name, err, bound in checks:
+            ctx.count("oracle:proved-bound-" + name)
+            if not err <= bound * (1 + 1e-9) + slack / (h * h if name.startswith("acc") else (h if name.startswith("vel") else 1.0)):
+                ctx.fail("newmark-exceeds-proved-bound-" + name, "the error of the real code exceeds the bound proved for the documented scheme",
+                         dict(spec, h_failed=h), float(err), "<= %.6e" % bound)
+                return
+
+
+def gen_analytic(rng, balanced):
+    m = float(rng.uniform(0.5, 2.0))
+    w0 = 2 * np.pi * rng.uniform(0.5, 2.0)
+    k = m * w0 * w0
+    b = 2 * float(rng.uniform(0.0, 0.3)) * m * w0
+    w = float(2 * np.pi * rng.uniform(0.3, 1.5))
+    al, be, c0, c1 = (float(x) for x in rng.standard_normal(4))
+    if balanced:
+        al, be = float(rng.standard_normal()) , 0.0  # u''(0) = -w^2 be = 0: F(0) = k u0 + b v0
+    return {"solver": "newmark-proved-bounds", "m": m, "b": b, "k": float(k), "al": al, "be": be, "c0": c0, "c1": c1, "w": w, "T": 1.0,
+            "balanced": bool(balanced), "hs": [1.0 / 50, 1.0 / 200]}
+
+
+def oracle_va_orders(ctx, spec):
+    """Observed orders of the returned velocities and accelerations (scalar closed-form problem): balanced start-up: second
+    order in the interior AND at the last step (the end point uses the extrapolated step, not a one-sided difference),
+    first order for a_0; unbalanced: first order for v and for a from the third sample on, no convergence for a_0, a_1."""
+    from pyyeti import ode
+
+    m, b, k, T = spec["m"], spec["b"], spec["k"], spec["T"]
+    u, u1, u2, f, M3, M4, MF = _analytic(spec)
+    errs = {"v-interior": [], "v-last": [], "a-interior": [], "a-last": [], "a-initial": []}
+    hs = [T / 80, T / 160, T / 320]
+    for h in hs:
+        nt = int(round(T / h)) + 1
+        t = np.arange(nt) * h
+        sol = ode.SolveNewmark(np.array([m]), np.array([b]), np.array([k]), h).tsolve(f(t)[None, :], np.array([u(0.0)]), np.array([u1(0.0)]))
+        v, a = sol.v[0], sol.a[0]
+        errs["v-interior"].append(float(np.abs(v[1:-1] - u1(t[1:-1])).max()))
+        errs["v-last"].append(float(abs(v[-1] - u1(t[-1]))))
+        errs["a-interior"].append(float(np.abs(a[2:-1] - u2(t[2:-1])).max()))
+        errs["a-last"].append(float(abs(a[-1] - u2(t[-1]))))
+        errs["a-initial"].append(float(abs(a[0] - u2(0.0))))
+    bal = spec["balanced"]
+    # unbalanced start-up: the first-order error component oscillates in time, so the error at ONE instant (the last step)
+    # is not monotone in h; only the maxima over time are judged there
+    need = {"v-interior": 1.6 if bal else 0.75, "v-last": 1.6 if bal else None, "a-interior": 1.6 if bal else 0.75,
+            "a-last": 1.6 if bal else None, "a-initial": 0.75 if bal else None}
+    scale = {"v": max(abs(u1(0.0)), spec["w"] * (abs(spec["al"]) + abs(spec["be"])), 1e-12),
+             "a": max(spec["w"] ** 2 * (abs(spec["al"]) + abs(spec["be"])), 1e-12)}
+    row = {"balanced": bal}
+    for name, e in errs.items():
+        ctx.count("oracle:va-order-" + name)
+        row[name] = [round(math.log2(max(e[i], 1e-300) / max(e[i + 1], 1e-300)), 3) for i in range(2)]
+        if need[name] is None:
+            continue
+        order, ok = _order_verdict(e, 1e-8 * scale[name[0]], need[name])
+        if not ok:
+            ctx.fail("newmark-%s-order-below-%s-%s" % (name, "2" if need[name] > 1 else "1", "balanced-start" if bal else "unbalanced-start"),
+                     "the error of the returned %s does not shrink at the proved rate when h is halved" % name,
+                     dict(spec, hs=hs), {"errors": e, "overall_order": order}, "overall order >= %.2f" % need[name])
+            return
+    ctx.extra.setdefault("observed_orders_va", []).append(row)
+
+
+def oracle_initial_accel_defect(ctx, spec):
+    """newmark_initial_accel_defect on the API: on u = c0 + c1 t + c2 t^2 with the matching force the first returned
+    acceleration satisfies A h^2 (a_0 - 2 c2) = -c2 (4 m + b h + k h^2) / 3."""
+    from pyyeti import ode
+
+    m, b, k, h, c0, c1, c2 = (spec[x] for x in ("m", "b", "k", "h", "c0", "c1", "c2"))
+    t = np.arange(4) * h
+    uq = c0 + c1 * t + c2 * t * t
+    f = m * 2 * c2 + b * (c1 + 2 * c2 * t) + k * uq
+    sol = ode.SolveNewmark(np.array([m]), np.array([b]), np.array([k]), h).tsolve(f[None, :], np.array([c0]), np.array([c1]))
+    A = m / h**2 + b / (2 * h) + k / 3
+    lhs = A * h * h * (sol.a[0, 0] - 2 * c2)
+    rhs = -c2 * (4 * m + b * h + k * h * h) / 3
+    ctx.count("oracle:initial-accel-defect")
+    sc = max(abs(rhs), abs(A * h * h * 2 * c2), A * h * h * abs(sol.a[0, 0]), 1e-300)
+    if not abs(lhs - rhs) <= 1e-9 * sc:
+        ctx.fail("newmark-initial-acceleration-not-central-difference-with-u-minus-1",
+                 "a_0 on a quadratic solution is not (d_1 - 2 d_0 + u_-1) / h^2 of the documented start-up", spec, float(lhs), float(rhs))
+
+
+def oracle_modal(ctx, spec):
+    """newmark_modal_decomposition on the API: M = Psi diag(m) Phi^-1 etc.; SolveNewmark(M, B, K) with d0 = Phi q0,
+    v0 = Phi p0, F = Psi phi equals Phi applied to the scalar runs, mode by mode."""
+    from pyyeti import ode
+
+    mm, bb, kk = (np.array(spec[x], float) for x in ("mm", "bb", "kk"))
+    Phi = np.array(spec["Phi"], float)
+    h, nt = spec["h"], spec["nt"]
+    Psi = np.linalg.inv(Phi).T  # symmetric case: M = Psi diag(m) Psi^T
+    Pi = np.linalg.inv(Phi)
+    M, B, K = Psi @ np.diag(mm) @ Pi, Psi @ np.diag(bb) @ Pi, Psi @ np.diag(kk) @ Pi
+    q0, p0 = np.array(spec["q0"], float), np.array(spec["p0"], float)
+    phi = np.array(spec["phi"], float)
+    full = ode.SolveNewmark(M, B, K, h).tsolve(Psi @ phi, Phi @ q0, Phi @ p0)
+    ctx.count("oracle:modal-decomposition")
+    if getattr(ode.SolveNewmark(M, B, K, h), "unc", False):
+        return
+    modal = ode.SolveNewmark(mm, bb, kk, h).tsolve(phi, q0, p0)
+    for name in "dva":
+        want = Phi @ getattr(modal, name)
+        got = getattr(full, name)
+        sc = max(float(np.abs(want).max()), 1e-300)
+        if not np.abs(got - want).max() <= 1e-7 * sc * max(1.0, np.linalg.cond(Phi)):
+            ctx.fail("newmark-coupled-run-is-not-modal-superposition", "SolveNewmark on modally damped full matrices differs from Phi times the scalar runs (%s)" % name,
+                     spec, float(np.abs(got - want).max()), "<= 1e-7 * %.3e" % sc)
+            return
+
+
+def gen_modal(rng):
+    n = int(rng.integers(2, 5))
+    h = float(10 ** rng.uniform(-2.5, -0.5))
+    w = 10 ** rng.uniform(-1, 0.5, n) / h
+    mm = 10 ** rng.uniform(-0.5, 0.5, n)
+    zeta = rng.choice([0.0, 0.02, 0.3, 1.0], n)
+    Phi = np.eye(n) + 0.3 * rng.standard_normal((n, n))
+    nt = int(rng.integers(3, 30))
+    return {"solver": "newmark-modal", "mm": mm.tolist(), "bb": (2 * zeta * mm * w).tolist(), "kk": (mm * w * w).tolist(),
+            "Phi": Phi.tolist(), "h": h, "nt": nt, "q0": rng.standard_normal(n).tolist(), "p0": (rng.standard_normal(n) * w).tolist(),
+            "phi": (rng.standard_normal((n, nt)) * (mm * w * w)[:, None]).tolist()}
+
+
+def oracle_cdf_f2x(ctx, spec):
+    """cdf_f2x_is_step_sensitivity on the API: get_f2x(phi) @ fx is the change of phi @ d[:, 1] (velo: of phi @ v[:, 1]) when
+    phi.T @ fx is added to the force at the end of the first step (order 1)."""
+    from pyyeti import ode
+
+    if spec["order"] != 1 or spec["nt"] < 2:
+        return
+    rng = np.random.default_rng(spec["n"] * 7919 + spec["nt"])
+    n = spec["n"]
+    r = 2
+    phi = rng.standard_normal((r, n))
+    fx = rng.standard_normal(r)
+    ts, s0 = run_cdf(spec, "SolveCDF")
+    if not getattr(ts, "cdforces", False):
+        return
+    F = np.array(spec["F"], float)
+    scale_f = max(float(np.abs(F).max()), 1.0)
+    F2 = F.copy()
+    F2[:, 1] += phi.T @ fx * scale_f
+    _, s1 = run_cdf(dict(spec, F=F2.tolist()), "SolveCDF")
+    ctx.count("oracle:cdf-f2x")
+    for velo, name in ((False, "d"), (True, "v")):
+        flex = np.array(ts.get_f2x(phi, velo))
+        want = phi @ (s1[name][:, 1] - s0[name][:, 1])
+        got = flex @ fx * scale_f
+        sc = max(float(np.abs(want).max()), float(np.abs(got).max()), 1e-9 * float(np.abs(phi @ s0[name][:, 1]).max()), 1e-300)
+        if not np.abs(got - want).max() <= 1e-6 * sc:
+            ctx.fail("cdf-f2x-is-not-the-step-sensitivity-" + ("velo" if velo else "disp"),
+                     "get_f2x(phi) @ f differs from the change of the first step when phi.T f is added to P_1", spec,
+                     float(np.abs(got - want).max()), "<= 1e-6 * %.3e" % sc)
+            return
+
+
+def oracle_cdf_two_dof(ctx, spec):
+    """cdf_stable_two_dof on the API: two identical DOF with k = 0, diagonal damping b, coupled by C_od = [[0, c], [c, 0]],
+    zero force: the combinations v1 + v2 and v1 - v2 are multiplied per step by (Gp - Ap c)/(1 + Bp c) and
+    (Gp + Ap c)/(1 - Bp c); the coefficients satisfy the hypotheses of the theorem (0 <= Ap <= Bp, (Ap + Bp) b = 1 - Gp,
+    0 < Gp < 1), so |c| < b decays and c >= b does not."""
+    from pyyeti import ode
+
+    m, b, c, h, nt = (spec[x] for x in ("m", "b", "c", "h", "nt"))
+    ts = ode.SolveCDF(np.array([m, m]), np.array([[b, c], [c, b]]), np.zeros(2), h)
+    ctx.count("oracle:cdf-two-dof")
+    if not getattr(ts, "cdforces", False):
+        ctx.fail("cdf-not-engaged", "SolveCDF does not use the cd-as-force solver for coupled damping", spec, False, True)
+        return
+    pc = ts.pc
+    Gp, Ap, Bp = float(pc.Gp[0]), float(pc.Ap[0]), float(pc.Bp[0])
+    hyp = (0 < Gp < 1) and (0 <= Ap <= Bp * (1 + 1e-12)) and abs((Ap + Bp) * b - (1 - Gp)) <= 1e-9
+    if not hyp:
+        ctx.fail("cdf-two-dof-coefficients-outside-hypotheses", "get_su_coef coefficients of a damped k = 0 mode violate 0 <= Ap <= Bp, (Ap + Bp) b = 1 - Gp",
+                 spec, [Gp, Ap, Bp], "0 < Gp < 1, 0 <= Ap <= Bp, (Ap + Bp) b = 1 - Gp")
+        return
+    v0 = np.array(spec["v0"], float)
+    sol = ts.tsolve(np.zeros((2, nt)), np.zeros(2), v0)
+    sp, sm = sol.v[0] + sol.v[1], sol.v[0] - sol.v[1]
+    rp, rm = (Gp - Ap * c) / (1 + Bp * c), (Gp + Ap * c) / (1 - Bp * c)
+    for name, seq, rho in (("sum", sp, rp), ("difference", sm, rm)):
+        want = seq[0] * rho ** np.arange(nt)
+        sc = max(float(np.abs(want).max()), 1e-300)
+        if not np.abs(seq - want).max() <= 1e-8 * sc:
+            ctx.fail("cdf-two-dof-velocity-%s-not-geometric" % name, "the velocity combination is not multiplied by the proved factor each step",
+                     spec, float(np.abs(seq - want).max()), "<= 1e-8 * %.3e" % sc)
+            return
+    if abs(c) < b and not (abs(rp) < 1 and abs(rm) < 1):
+        ctx.fail("cdf-two-dof-unstable-for-diagonally-dominant-damping", "|c| < b but an amplification factor is not below one", spec, [rp, rm], "< 1")
+
+
+def oracle_nonlin_rf(ctx, spec):
+    """Nonlinear terms together with an rf partition: the documented start-up A u_1 = (F_1 + F_0' + F_-1)/3 + N_0 + A1 u_0 +
+    A0 u_-1 with N_0 = T func(D, 0, h) evaluated on the SAME array (rows of the non-rf equations) that the callbacks see at
+    every later step."""
+    from pyyeti import ode
+
+    m, b, k = (np.array(spec[x], float) for x in "mbk")
+    n, h, rf, p, c = spec["n"], spec["h"], spec["rf"], spec["p"], spec["c"]
+    nonrf = [i for i in range(n) if i not in rf]
+    nn = len(nonrf)
+    F = np.array(spec["F"], float)
+    d0, v0 = np.array(spec["d0"], float), np.array(spec["v0"], float)
+    shapes = []
+
+    def func(d, j, hh):
+        shapes.append(list(d.shape))
+        return np.array([c * d[p, j] ** 3])
+
+    T = np.zeros((nn, 1))
+    T[p, 0] = 1.0
+    ts = ode.SolveNewmark(m, b, k, h, rf=rf)
+    ts.def_nonlin({"cubic": (func, T)})
+    sol = ts.tsolve(F, d0, v0)
+    ctx.count("oracle:nonlin-with-rf")
+    D = sol.d[nonrf]
+    mm, bb, kk = m[nonrf], b[nonrf], k[nonrf]
+    A = mm / h**2 + bb / (2 * h) + kk / 3
+    A1 = 2 * mm / h**2 - kk / 3
+    A0 = -mm / h**2 + bb / (2 * h) - kk / 3
+    um = d0[nonrf] - h * v0[nonrf]
+    F0 = kk * d0[nonrf] + bb * v0[nonrf]
+    Fm = kk * um + bb * v0[nonrf]
+    N0 = T[:, 0] * (c * d0[nonrf][p] ** 3)
+    res = A * D[:, 1] - ((F[nonrf, 1] + F0 + Fm) / 3 + N0 + A1 * d0[nonrf] + A0 * um)
+    sc = max(float(np.abs(A * D[:, 1]).max()), float(np.abs(N0).max()), float(np.abs(F[nonrf]).max()), 1e-300)
+    if not np.abs(res).max() <= 2e-8 * sc:
+        lead = "leading" if min(rf) < max(nonrf) else "trailing"
+        ctx.fail("newmark-nonlin-with-%s-rf-callback-sees-full-size-array-at-step-0" % lead,
+                 "with an rf partition the callbacks get the full-size array d at step 0 and d[nonrf] afterwards: N_0 is evaluated on another row than N_j",
+                 spec, {"residual": float(np.abs(res).max()), "array shapes seen by the callback": shapes[:3]}, "<= 2e-8 * %.3e" % sc)
+
+
+def gen_nonlin_rf(rng, leading):
+    n = 3
+    h = float(10 ** rng.uniform(-2, -1))
+    w = 10 ** rng.uniform(-0.5, 0.3, n) / h
+    m = 10 ** rng.uniform(-0.3, 0.3, n)
+    k = m * w * w
+    rf = [0] if leading else [n - 1]
+    return {"solver": "newmark-nonlin-rf", "n": n, "h": h, "m": m.tolist(), "b": (0.04 * m * w).tolist(), "k": k.tolist(), "rf": rf,
+            "p": 0, "c": float(0.3 * k[1 if leading else 0]), "F": (rng.standard_normal((n, 5)) * k[:, None]).tolist(),
+            "d0": (0.5 + rng.random(n)).tolist(), "v0": (rng.standard_normal(n) * w).tolist()}
+
+
+def oracle_entry_points(ctx):
+    """SolveNewmark has no generator and no get_f2x (the base class raises NotImplementedError): recorded, not judged."""
+    from pyyeti import ode
+
+    ts = ode.SolveNewmark(np.array([1.0]), np.array([0.1]), np.array([4.0]), 0.1)
+    out = {}
+    for name in ("generator", "get_f2x"):
+        try:
+            getattr(ts, name)()
+            out[name] = "implemented"
+        except NotImplementedError:
+            out[name] = "NotImplementedError"
+        except TypeError:
+            out[name] = "implemented (takes arguments)"
+    ctx.extra["solvenewmark_entry_points"] = out
+
+
 def _run_spec(ctx, spec):
     s = spec.get("solver")
+    extra = {"newmark-proved-bounds": oracle_proved_bounds, "newmark-va-orders": oracle_va_orders,
+             "newmark-initial-accel": oracle_initial_accel_defect, "newmark-modal": oracle_modal,
+             "cdf-two-dof": oracle_cdf_two_dof, "newmark-nonlin-rf": oracle_nonlin_rf}
+    if s in extra:
+        extra[s](ctx, spec)
+        return
     if s == "newmark-seq":
         oracle_newmark_seq(ctx, spec)
     elif s == "newmark":
@@ -1799,6 +2141,29 @@ def search(ctx, hints):
     for _ in range(ctx.pick(150, 1000)):
         oracle_bounded(ctx, rng)
         ctx.count("oracle:newmark-bounded")
+    # second extension: proved bounds on the real code, orders of v and a, initial-acceleration defect, modal superposition,
+    # get_f2x as step sensitivity, the 2-DOF stability test problem, callbacks with an rf partition
+    rng2 = ctx.np_rng(1741)
+    for i in range(ctx.pick(24, 160)):
+        oracle_proved_bounds(ctx, gen_analytic(rng2, balanced=bool(i % 2)))
+    for i in range(ctx.pick(10, 60)):
+        oracle_va_orders(ctx, dict(gen_analytic(rng2, balanced=bool(i % 2)), solver="newmark-va-orders"))
+    for _ in range(ctx.pick(40, 300)):
+        oracle_initial_accel_defect(ctx, {"solver": "newmark-initial-accel", "m": float(rng2.uniform(0.2, 3)), "b": float(rng2.uniform(0, 2)),
+                                          "k": float(rng2.uniform(0, 50)), "h": float(10 ** rng2.uniform(-2, 0)),
+                                          "c0": float(rng2.standard_normal()), "c1": float(rng2.standard_normal()), "c2": float(rng2.standard_normal())})
+    for _ in range(ctx.pick(60, 400)):
+        oracle_modal(ctx, gen_modal(rng2))
+    for _ in range(ctx.pick(60, 400)):
+        oracle_cdf_f2x(ctx, gen_cdf(rng2, {"nt": int(rng2.integers(2, 6))}))
+    for _ in range(ctx.pick(40, 300)):
+        b = float(10 ** rng2.uniform(-1, 1))
+        oracle_cdf_two_dof(ctx, {"solver": "cdf-two-dof", "m": float(10 ** rng2.uniform(-0.5, 0.5)), "b": b,
+                                 "c": float(b * rng2.choice([-0.9, -0.5, 0.3, 0.8, 0.99])), "h": float(10 ** rng2.uniform(-2, 0)),
+                                 "nt": 12, "v0": rng2.standard_normal(2).tolist()})
+    for i in range(ctx.pick(6, 30)):
+        oracle_nonlin_rf(ctx, gen_nonlin_rf(rng2, leading=bool(i % 2)))
+    oracle_entry_points(ctx)
 
 
 def replay(ctx, data):
